@@ -208,6 +208,12 @@ func (e *endpoint) dispatch() (bool, *tcpip.Error) {
 	if err != nil {
 		return false, err
 	}
+	if n > 0 && n <= e.hdrSize {
+		// A runt frame (no payload beyond the link header): drop it and keep
+		// dispatching. Returning false here would end dispatchLoop and the
+		// NIC would never receive anything again.
+		return true, nil
+	}
 	//如果比头部长度还小，直接丢弃
 	if n <= e.hdrSize {
 		log.Printf("@链路层 fdbased: read %d bytes < header bytest %d,比头部长度还小直接丢弃", n, e.hdrSize)
